@@ -192,6 +192,25 @@ func CheckC10(run *ev.Run) {
 			_ = json.Unmarshal(doc, &dm)
 			note := hostileText(r) + "\ufeff" + hostileText(r)
 			dm["info"].(map[string]interface{})["x-verif-note"] = note
+			// every other spec has operations WITHOUT operationId (the generator invents a name for its own use; the embedded
+			// documents must not gain it) and two operations whose ids differ only by case
+			if i%2 == 0 {
+				if paths, ok := dm["paths"].(map[string]interface{}); ok {
+					k := 0
+					for _, pk := range sortedKeysOf(paths) {
+						if item, ok := paths[pk].(map[string]interface{}); ok {
+							for _, mk := range sortedKeysOf(item) {
+								if op, ok := item[mk].(map[string]interface{}); ok && op["responses"] != nil {
+									if k%2 == 0 {
+										delete(op, "operationId")
+									}
+									k++
+								}
+							}
+						}
+					}
+				}
+			}
 			doc, _ = json.MarshalIndent(dm, "", " ")
 		}
 		mode := modes[i%len(modes)]
